@@ -72,6 +72,22 @@ func (g *Gen) FnLine(pool []string, verb, db, coll string, carrier string) *FnCa
 		return g.LitClass(g.pick("str", "str", "num", "email", "date", "oid", "bool"), "fn-"+slot)
 	}
 	ref := func(name string) *Node { return StrN("$" + name).With(&Tag{Role: Ref}) }
+	{
+		// a field may hold null, {} or [] instead of a literal (deletedAt: null is everyday): the
+		// NAME is renamed all the same
+		lit := l
+		l = func(slot string) *Node {
+			switch g.R.Intn(14) {
+			case 0, 1:
+				return NullN()
+			case 2:
+				return ObjN()
+			case 3:
+				return ArrN()
+			}
+			return lit(slot)
+		}
+	}
 	var cmd *Node
 	var clauses [][]string
 	switch verb {
